@@ -323,7 +323,7 @@ def sweep(pid, tier, seed):
     i, (vio, text, sseed, mseed, rate, _) = bad[0]
     if text is None:
         harness_error(f"execution {i} failed ({vio}) before printing its scenario")
-    best = minimise(tmpl, text, vio[0], mseed, rate, 40 if tier == "quick" else 120)
+    best = minimise(tmpl, text, vio[0], mseed, rate, int(os.environ.get("GSIM_MIN_BUDGET_S", "0")) or (40 if tier == "quick" else 120))
     v2, _ = execute(tmpl, best[1], best[2], ["scenario", best[0], "--print"])
     if not v2 or v2[0] != vio[0]:
         best, v2 = (text, mseed, rate), vio
